@@ -225,7 +225,10 @@ class Unit:
                 return
             raise AnchorLost(str(e))
         t = self.clean_item_text(src.text[it.start:it.end], kw)
-        if kind in ('struct', 'enum', 'type', 'const', 'trait'):
+        if kw.get('vis') == 'none':
+            # for items placed inside a trait impl, where a visibility qualifier is not allowed
+            t = re.sub(r'^(\s*)pub(\s*\([^)]*\))?\s+', r'\1', t, count=1)
+        elif kind in ('struct', 'enum', 'type', 'const', 'trait'):
             t2 = re.sub(r'^(\s*(?:#\[[^\]]*\]\s*)*)(?!pub\b)(struct|enum|type|const|trait)\b', r'\1pub \2', t, count=1)
             if t2 != t:
                 self.rw.hit('W0.item_pub')
